@@ -17,6 +17,7 @@ import (
 	"github.com/emirpasic/gods/v2/maps/linkedhashmap"
 	"github.com/emirpasic/gods/v2/maps/treebidimap"
 	"github.com/emirpasic/gods/v2/maps/treemap"
+	"github.com/emirpasic/gods/v2/sets/treeset"
 	"github.com/emirpasic/gods/v2/trees/avltree"
 	"github.com/emirpasic/gods/v2/trees/btree"
 	"github.com/emirpasic/gods/v2/trees/redblacktree"
@@ -66,6 +67,43 @@ type kvAPI[K comparable, V comparable] struct {
 	bound    func(n int) float64  // comparator-call bound for one Get/Put/Remove with n keys
 	putMul   int
 	remMul   int
+	// enumerable (TreeMap, LinkedHashMap, TreeBidiMap)
+	each    func(func(K, V))
+	anyF    func(func(K, V) bool) bool
+	allF    func(func(K, V) bool) bool
+	find    func(func(K, V) bool) (K, V)
+	selectF func(func(K, V) bool) *kvAPI[K, V]
+	mapF    func(func(K, V) (K, V)) *kvAPI[K, V]
+}
+
+func wrapTreeMap[K comparable, V comparable](t *treemap.Map[K, V]) *kvAPI[K, V] {
+	return &kvAPI[K, V]{obj: t, name: "TreeMap", put: t.Put, get: t.Get, remove: t.Remove, clear: t.Clear, size: t.Size,
+		empty: t.Empty, keys: t.Keys, values: t.Values, str: t.String,
+		min: t.Min, max: t.Max, floor: t.Floor, ceiling: t.Ceiling,
+		iter:  func() *IterDyn { return keyIterRev[K, V](t.Iterator()) },
+		bound: rbBound, putMul: 1, remMul: 1,
+		each: t.Each, anyF: t.Any, allF: t.All, find: t.Find,
+		selectF: func(f func(K, V) bool) *kvAPI[K, V] { return wrapTreeMap(t.Select(f)) },
+		mapF:    func(f func(K, V) (K, V)) *kvAPI[K, V] { return wrapTreeMap(t.Map(f)) }}
+}
+
+func wrapTreeBidiMap[K comparable, V comparable](t *treebidimap.Map[K, V]) *kvAPI[K, V] {
+	return &kvAPI[K, V]{obj: t, name: "TreeBidiMap", put: t.Put, get: t.Get, remove: t.Remove, clear: t.Clear, size: t.Size,
+		empty: t.Empty, keys: t.Keys, values: t.Values, str: t.String, getKey: t.GetKey,
+		iter:  func() *IterDyn { return keyIterRev[K, V](t.Iterator()) },
+		bound: rbBound, putMul: 6, remMul: 3,
+		each: t.Each, anyF: t.Any, allF: t.All, find: t.Find,
+		selectF: func(f func(K, V) bool) *kvAPI[K, V] { return wrapTreeBidiMap(t.Select(f)) },
+		mapF:    func(f func(K, V) (K, V)) *kvAPI[K, V] { return wrapTreeBidiMap(t.Map(f)) }}
+}
+
+func wrapLinkedHashMap[K comparable, V comparable](t *linkedhashmap.Map[K, V]) *kvAPI[K, V] {
+	return &kvAPI[K, V]{obj: t, name: "LinkedHashMap", put: t.Put, get: t.Get, remove: t.Remove, clear: t.Clear, size: t.Size,
+		empty: t.Empty, keys: t.Keys, values: t.Values, str: t.String,
+		iter: func() *IterDyn { return keyIterRev[K, V](t.Iterator()) },
+		each: t.Each, anyF: t.Any, allF: t.All, find: t.Find,
+		selectF: func(f func(K, V) bool) *kvAPI[K, V] { return wrapLinkedHashMap(t.Select(f)) },
+		mapF:    func(f func(K, V) (K, V)) *kvAPI[K, V] { return wrapLinkedHashMap(t.Map(f)) }}
 }
 
 type KVSys[K comparable, V comparable] struct {
@@ -102,7 +140,7 @@ func (s *KVSys[K, V]) Props() []string { return s.PropsL }
 
 func (s *KVSys[K, V]) ordered() bool {
 	switch s.Kind {
-	case "rbt", "avl", "btree", "treemap", "treebidimap":
+	case "rbt", "avl", "btree", "treemap", "treebidimap", "treeset":
 		return true
 	}
 	return false
@@ -226,27 +264,23 @@ func (s *KVSys[K, V]) api(b *kvBox[K, V]) *kvAPI[K, V] {
 			shape: func() *Viol { return btShape(t, s.Order) },
 			bound: btBound(s.Order), putMul: 1, remMul: 1}
 	case "treemap":
-		t := treemap.NewWith[K, V](b.kcmp)
-		return &kvAPI[K, V]{obj: t, name: "TreeMap", put: t.Put, get: t.Get, remove: t.Remove, clear: t.Clear, size: t.Size,
-			empty: t.Empty, keys: t.Keys, values: t.Values, str: t.String,
-			min: t.Min, max: t.Max, floor: t.Floor, ceiling: t.Ceiling,
-			iter:  func() *IterDyn { return keyIterRev[K, V](t.Iterator()) },
-			bound: rbBound, putMul: 1, remMul: 1}
+		return wrapTreeMap(treemap.NewWith[K, V](b.kcmp))
 	case "treebidimap":
-		t := treebidimap.NewWith[K, V](b.kcmp, b.vcmp)
-		return &kvAPI[K, V]{obj: t, name: "TreeBidiMap", put: t.Put, get: t.Get, remove: t.Remove, clear: t.Clear, size: t.Size,
-			empty: t.Empty, keys: t.Keys, values: t.Values, str: t.String, getKey: t.GetKey,
-			iter:  func() *IterDyn { return keyIterRev[K, V](t.Iterator()) },
-			bound: rbBound, putMul: 6, remMul: 3}
+		return wrapTreeBidiMap(treebidimap.NewWith[K, V](b.kcmp, b.vcmp))
+	case "treeset":
+		t := treeset.NewWith[K](b.kcmp)
+		var zv V
+		return &kvAPI[K, V]{obj: t, name: "TreeSet", put: func(k K, _ V) { t.Add(k) },
+			get:    func(k K) (V, bool) { return zv, t.Contains(k) },
+			remove: func(k K) { t.Remove(k) }, clear: t.Clear, size: t.Size,
+			empty: t.Empty, keys: t.Values, values: func() []V { return make([]V, t.Size()) }, str: t.String,
+			bound: rbBound, putMul: 1, remMul: 1}
 	case "hashmap":
 		t := hashmap.New[K, V]()
 		return &kvAPI[K, V]{obj: t, name: "HashMap", put: t.Put, get: t.Get, remove: t.Remove, clear: t.Clear, size: t.Size,
 			empty: t.Empty, keys: t.Keys, values: t.Values, str: t.String}
 	case "linkedhashmap":
-		t := linkedhashmap.New[K, V]()
-		return &kvAPI[K, V]{obj: t, name: "LinkedHashMap", put: t.Put, get: t.Get, remove: t.Remove, clear: t.Clear, size: t.Size,
-			empty: t.Empty, keys: t.Keys, values: t.Values, str: t.String,
-			iter: func() *IterDyn { return keyIterRev[K, V](t.Iterator()) }}
+		return wrapLinkedHashMap(linkedhashmap.New[K, V]())
 	case "hashbidimap":
 		t := hashbidimap.New[K, V]()
 		return &kvAPI[K, V]{obj: t, name: "HashBidiMap", put: t.Put, get: t.Get, remove: t.Remove, clear: t.Clear, size: t.Size,
@@ -623,6 +657,9 @@ func (b *kvBox[K, V]) Obs() string {
 func (b *kvBox[K, V]) mainProp() string {
 	if b.sys.bidi() {
 		return "C10"
+	}
+	if b.sys.Kind == "treeset" {
+		return "C04"
 	}
 	return "C01"
 }
